@@ -36,11 +36,18 @@ impl MessageStorage for MdkMemoryStorage {
                 let is_update = group_messages.contains_key(&message.id);
 
                 if !is_update && group_messages.len() >= self.limits.max_messages_per_group {
-                    // Evict the oldest message to make room for the new one
-                    // Find the message with the oldest created_at timestamp
+                    // Evict the oldest message to make room for the new one: the message that
+                    // sorts last in the default listing order (created_at, processed_at, id).
+                    // Ties on created_at must not be broken by map iteration order, or the
+                    // message the group's last-message pointer designates could be the victim.
                     if let Some(oldest_id) = group_messages
                         .iter()
-                        .min_by_key(|(_, msg)| msg.created_at)
+                        .min_by(|(_, a), (_, b)| {
+                            a.created_at
+                                .cmp(&b.created_at)
+                                .then_with(|| a.processed_at.cmp(&b.processed_at))
+                                .then_with(|| a.id.cmp(&b.id))
+                        })
                         .map(|(id, _)| *id)
                     {
                         // Remove from both caches to prevent orphaned entries
